@@ -31,7 +31,16 @@ pub fn prop() -> Prop {
          Classes: mutator x reference verdict; violated:<rule code> for every code the reference reports; \
          satisfied:<construct> for the constructs of documents the reference accepts; unspecified:<reason>. \
          Two cases in three use a schema extended by a fixed fixture (gen::opfixture: arguments of every input type, \
-         interface with two implementers of differing field shapes, union, custom directives on every executable location).",
+         interface with two implementers of differing field shapes, union, custom directives on every executable location). \
+         One schema in three re-defines built-in directives (gen::builtin_redef: @skip/@include/@deprecated/@specifiedBy with the \
+         built-in arguments, repeatable and/or with more or fewer locations); documents apply directives as the definition in \
+         force says. Context-dependent mutators (gen::opmutate_ctx): one named fragment spread at several sites with \
+         site-dependent validity (impossible at a later site, directly / inside another fragment / through a wrapper fragment; \
+         a merge conflict beside one spread), several operations sharing a fragment with per-operation variable definitions \
+         (one operation lacks the variable, defines it with a type not allowed at the fragment's usage, or defines a variable \
+         only another operation uses), and their valid counterparts (extract a fragment, spread it again where possible, copy \
+         an operation, a stricter variable type in one operation, apply a directive at any location its definition lists, \
+         twice when repeatable). Classes ctx:<construct>|<verdict> count these documents.",
     )
     .random("pairs", check, |t| if t == Tier::Quick { 100_000 } else { 2_000_000 }, |t| if t == Tier::Quick { 700 } else { 1000 })
     .text(check_text)
@@ -74,6 +83,8 @@ pub fn gen_case_mode(c: &mut Choices, mode: Mode) -> Case {
     let finding_constructs = c.bool(40);
     let sub_heavy = c.bool(64);
     let with_fixture = c.bool(150);
+    let redefine_builtins = c.bool(90);
+    let fragment_heavy = c.bool(70);
     let sopts = gschema::Opts::default();
     let mut schema_doc = gschema::schema(c, &sopts);
     if with_fixture {
@@ -82,8 +93,11 @@ pub fn gen_case_mode(c: &mut Choices, mode: Mode) -> Case {
     if c.bool(60) {
         gschema::split_extensions(c, &mut schema_doc);
     }
+    if redefine_builtins {
+        crate::gen::builtin_redef::redefine_builtins(c, &mut schema_doc);
+    }
     let rs = RefSchema::from_document(&schema_doc);
-    let opts = OpOpts { null_in_custom_scalar_list: finding_constructs, subscription_weight: if sub_heavy { 150 } else { 15 }, ..OpOpts::default() };
+    let opts = OpOpts { null_in_custom_scalar_list: finding_constructs, subscription_weight: if sub_heavy { 150 } else { 15 }, spread_weight: if fragment_heavy { 45 } else { 14 }, reuse_bias: if fragment_heavy { 170 } else { 110 }, ..OpOpts::default() };
     let mut doc = operation::valid_document(c, &rs, &opts);
     let mut mutators = vec![];
     if allow_mutation {
@@ -183,6 +197,9 @@ pub fn check_pair(schema_text: &str, doc_text: &str, label: &str, ctx: &mut Ctx)
                 ctx.class(format!("unspecified:{}", w));
             }
         }
+    }
+    for c in context_constructs(&rs, doc_text) {
+        ctx.class(format!("ctx:{}|{}", c, reference.label()));
     }
     let schema = match apollo_schema(schema_text) {
         Ok(s) => s,
@@ -338,6 +355,136 @@ pub fn constructs(doc_text: &str) -> Vec<&'static str> {
     out.into_iter().collect()
 }
 
+/// Context-dependent constructs (labels for the histogram only): one named fragment used at
+/// several places / by several operations, and applications of re-defined built-in directives.
+pub fn context_constructs(rs: &RefSchema, doc_text: &str) -> Vec<&'static str> {
+    use crate::refmodel::ast::*;
+    let Ok(d) = parse_document(doc_text) else { return vec![] };
+    let mut out: BTreeSet<&'static str> = BTreeSet::new();
+    let sites = opmutate::sites(&d, rs);
+    // spread sites per fragment name: (definition index, parent type)
+    let mut by_name: std::collections::BTreeMap<String, Vec<(usize, Option<String>)>> = Default::default();
+    fn sel_at<'d>(doc: &'d Document, p: &opmutate::Path) -> Option<&'d Selection> {
+        let mut cur: &Vec<Selection> = match &doc.defs[p.def] {
+            Definition::Operation(o) => &o.selection_set,
+            Definition::Fragment(f) => &f.selection_set,
+            _ => return None,
+        };
+        let (last, init) = p.idx.split_last()?;
+        for &i in init {
+            cur = match cur.get(i)? {
+                Selection::Field(f) => &f.selection_set,
+                Selection::Inline(f) => &f.selection_set,
+                Selection::Spread(_) => return None,
+            };
+        }
+        cur.get(*last)
+    }
+    for (p, parent) in &sites.spreads {
+        if let Some(Selection::Spread(sp)) = sel_at(&d, p) {
+            by_name.entry(sp.name.clone()).or_default().push((p.def, parent.clone()));
+        }
+    }
+    for v in by_name.values() {
+        if v.len() >= 2 {
+            out.insert("fragment-at-several-sites");
+            if v.iter().any(|x| x.1 != v[0].1) {
+                out.insert("fragment-below-several-parent-types");
+            }
+        }
+    }
+    // fragments reached by several operations, and whether such a fragment uses a variable
+    let frags: Vec<&FragmentDef> = d.defs.iter().filter_map(|x| if let Definition::Fragment(f) = x { Some(f) } else { None }).collect();
+    let direct = |def: usize| -> Vec<String> { by_name.iter().filter(|(_, v)| v.iter().any(|x| x.0 == def)).map(|(n, _)| n.clone()).collect() };
+    let mut reached_by: std::collections::BTreeMap<String, usize> = Default::default();
+    for (i, def) in d.defs.iter().enumerate() {
+        if !matches!(def, Definition::Operation(_)) {
+            continue;
+        }
+        let mut seen: BTreeSet<String> = BTreeSet::new();
+        let mut stack = direct(i);
+        while let Some(n) = stack.pop() {
+            if !seen.insert(n.clone()) {
+                continue;
+            }
+            if let Some(fi) = d.defs.iter().position(|x| matches!(x, Definition::Fragment(f) if f.name == n)) {
+                stack.extend(direct(fi));
+            }
+        }
+        for n in seen {
+            *reached_by.entry(n).or_default() += 1;
+        }
+    }
+    for (n, k) in &reached_by {
+        if *k >= 2 {
+            out.insert("fragment-shared-by-operations");
+            if let Some(f) = frags.iter().find(|f| f.name == *n) {
+                let probe = OperationDef { op: OpType::Query, shorthand: false, name: None, vars: vec![], directives: vec![], selection_set: vec![Selection::Spread(FragmentSpread { name: f.name.clone(), directives: vec![] })] };
+                if !operation::used_variables(&probe, &frags).is_empty() {
+                    out.insert("shared-fragment-uses-variable");
+                }
+            }
+        }
+    }
+    // re-defined built-in directives
+    let redefined: Vec<&String> = rs.user_directives.iter().filter(|n| crate::gen::builtin_redef::REDEFINABLE.contains(&n.as_str())).collect();
+    if !redefined.is_empty() {
+        out.insert("schema-redefines-builtin-directive");
+        let builtin = RefSchema::from_document(&Document { defs: vec![] });
+        let mut visit = |ds: &[Directive], loc: &str, out: &mut BTreeSet<&'static str>| {
+            for (i, x) in ds.iter().enumerate() {
+                if !redefined.contains(&&x.name) {
+                    continue;
+                }
+                out.insert("redefined-builtin-applied");
+                if ds[..i].iter().any(|y| y.name == x.name) {
+                    out.insert("redefined-builtin-repeated");
+                }
+                if !builtin.directive(&x.name).map_or(false, |b| b.locations.iter().any(|l| l == loc)) {
+                    out.insert("redefined-builtin-at-added-location");
+                }
+            }
+        };
+        fn sels(ss: &[Selection], visit: &mut dyn FnMut(&[Directive], &str, &mut BTreeSet<&'static str>), out: &mut BTreeSet<&'static str>) {
+            for s in ss {
+                match s {
+                    Selection::Field(f) => {
+                        visit(&f.directives, "FIELD", out);
+                        sels(&f.selection_set, visit, out);
+                    }
+                    Selection::Inline(i) => {
+                        visit(&i.directives, "INLINE_FRAGMENT", out);
+                        sels(&i.selection_set, visit, out);
+                    }
+                    Selection::Spread(sp) => visit(&sp.directives, "FRAGMENT_SPREAD", out),
+                }
+            }
+        }
+        for def in &d.defs {
+            match def {
+                Definition::Operation(o) => {
+                    let loc = match o.op {
+                        OpType::Query => "QUERY",
+                        OpType::Mutation => "MUTATION",
+                        OpType::Subscription => "SUBSCRIPTION",
+                    };
+                    visit(&o.directives, loc, &mut out);
+                    for v in &o.vars {
+                        visit(&v.directives, "VARIABLE_DEFINITION", &mut out);
+                    }
+                    sels(&o.selection_set, &mut visit, &mut out);
+                }
+                Definition::Fragment(f) => {
+                    visit(&f.directives, "FRAGMENT_DEFINITION", &mut out);
+                    sels(&f.selection_set, &mut visit, &mut out);
+                }
+                _ => {}
+            }
+        }
+    }
+    out.into_iter().collect()
+}
+
 pub fn split_pair(text: &str) -> (String, String) {
     match text.find(SEP) {
         Some(i) => (text[..i + 1].to_string(), text[i + SEP.len()..].to_string()),
@@ -422,12 +569,20 @@ pub fn aux(args: &[String]) -> i32 {
     let show: u64 = arg("--show").and_then(|s| s.parse().ok()).unwrap_or(5);
     let (mut rejected, mut ref_invalid, mut ref_unspec, mut schema_bad) = (0u64, 0u64, 0u64, 0u64);
     let (mut with_vars, mut with_frags, mut subs, mut sel_total) = (0u64, 0u64, 0u64, 0u64);
+    let neutral = args.iter().any(|a| a == "--neutral");
+    let mut println_label;
     for i in 0..n {
         let bytes = crate::runner::gen_case(seed, "C17calib", 0, i, 700);
         let mut c = Choices::new(&bytes);
-        let case = gen_case(&mut c, false);
+        // `--neutral`: valid by construction plus 0-2 validity-preserving mutations
+        let case = gen_case_mode(&mut c, if neutral { Mode::Neutral } else { Mode::Unmutated });
         let st = print_document(&case.schema_doc);
         let dt = print_document(&case.doc);
+        if neutral && !case.mutators.is_empty() {
+            println_label = case.mutators.join(",");
+        } else {
+            println_label = String::new();
+        }
         if dt.contains('$') {
             with_vars += 1;
         }
@@ -450,13 +605,13 @@ pub fn aux(args: &[String]) -> i32 {
             Ok(Verdict::Unspecified(w)) => {
                 ref_unspec += 1;
                 if ref_unspec <= show {
-                    println!("==== case {} reference UNSPECIFIED {:?}\n{}{}{}", i, w, st, SEP, dt);
+                    println!("==== case {} [{}] reference UNSPECIFIED {:?}\n{}{}{}", i, println_label, w, st, SEP, dt);
                 }
             }
             Ok(Verdict::Invalid(c)) => {
                 ref_invalid += 1;
                 if ref_invalid <= show {
-                    println!("==== case {} reference INVALID {:?}\n{}{}{}", i, c, st, SEP, dt);
+                    println!("==== case {} [{}] reference INVALID {:?}\n{}{}{}", i, println_label, c, st, SEP, dt);
                 }
             }
             Err(e) => println!("==== case {} {}", i, e),
@@ -464,7 +619,7 @@ pub fn aux(args: &[String]) -> i32 {
         if let Err(e) = ExecutableDocument::parse_and_validate(&schema, &dt, "q.graphql") {
             rejected += 1;
             if rejected <= show {
-                println!("==== case {} apollo REJECTS {:?}\n{}\n{}{}{}", i, diagnostic_kinds(&e.errors, None), e.errors, st, SEP, dt);
+                println!("==== case {} [{}] apollo REJECTS {:?}\n{}\n{}{}{}", i, println_label, diagnostic_kinds(&e.errors, None), e.errors, st, SEP, dt);
             }
         }
     }
